@@ -1,6 +1,8 @@
 #!/bin/sh
 # regenerates _CoqProject from the files present (so branches adding files never conflict)
 cd "$(dirname "$0")"
+# build artefacts whose source is gone (renamed/deleted files) would confuse coqc/coqchk
+for d in Model Proofs Properties Corr; do for f in $d/*.vo $d/*.vok $d/*.vos $d/*.glob; do [ -e "$f" ] || continue; b="${f%.*}"; [ -e "$b.v" ] || rm -f "$f" "$d/.$(basename "$b").aux"; done; done
 { echo "-Q Model Hop"; echo "-Q Proofs Hop"; echo "-Q Properties Hop"; echo "-Q Corr Hop";
   echo "-arg -w -arg -notation-overridden,-deprecated-hint-without-locality,-deprecated-instance-without-locality";
   ls Model/*.v Proofs/*.v Properties/*.v Corr/*.v 2>/dev/null | sort; } > _CoqProject.new
